@@ -70,6 +70,15 @@ func (e *Env) invVars(fr *Frame) map[string]Value {
 		// they denote has been computed; addressable locals denote their cell
 		for _, b := range f.fn.Blocks {
 			for _, ins := range b.Instrs {
+				if al, ok := ins.(*ssa.Alloc); ok && al.Comment != "" && al.Comment != "complit" && al.Comment != "varargs" {
+					// an addressable local: its name denotes the cell (use *name for the value)
+					if v, ok := f.regs[al]; ok {
+						if _, taken := vars[al.Comment]; !taken {
+							vars[al.Comment] = v
+						}
+					}
+					continue
+				}
 				d, ok := ins.(*ssa.DebugRef)
 				if !ok {
 					continue
@@ -79,7 +88,7 @@ func (e *Env) invVars(fr *Frame) map[string]Value {
 					continue
 				}
 				ob, isVar := d.Object().(*types.Var)
-				if !isVar || ob.IsField() || d.IsAddr {
+				if !isVar || ob.IsField() {
 					continue
 				}
 				if v, ok := f.regs[d.X]; ok {
@@ -301,6 +310,23 @@ func (w *World) verifyItem(it *Item, timeoutMs int) *FuncResult {
 		}
 	}()
 	e.pending.Wait()
+	// a loop may have several back edges, some of them infeasible (e.g. a constant-bound inner
+	// loop that never exits early): the reachability check holds if any of them is reachable
+	backOK := map[string]bool{}
+	for _, o := range e.obs {
+		if o.Kind == "cover" && strings.HasSuffix(o.Name, "-back") && o.Verdict != "unsat" {
+			backOK[o.Name] = true
+		}
+	}
+	for _, o := range e.obs {
+		if o.Kind == "cover" && strings.HasSuffix(o.Name, "-back") && backOK[o.Name] {
+			o.OK = true
+			if o.Verdict == "unsat" {
+				o.Verdict = "sat"
+				o.Solver += "(another back edge of this loop is reachable)"
+			}
+		}
+	}
 	res.Obligations = e.obs
 	res.Trusted = sortedKeys(e.trusted)
 	res.Inlined = sortedKeys(e.inlined)
